@@ -338,4 +338,19 @@ example : ZXDiag.eval 3 [(.z 1 1 2, 1), (.x 1 0 0, 0), (.scalar Cyc8.invSqrt2, 0
     ZXDiag.eval 3 [(.z 1 1 6, 1), (.x 1 0 0, 0), (.scalar Cyc8.invSqrt2, 0)] := by decide
 example : spiderVal (1 / 2) = nuC 1 ∧ nuC 1 ≠ 0 := ⟨by simpa using spiderVal_half 1, nuC_ne_zero 1⟩
 
+/-- A LOCAL PATTERN of consecutive gates: `SWAP ≫ CRz(1/4) ≫ SWAP` at one offset (what
+    `gates.rewire(CRz(1/4), 1, 0)` returns: control below target).  The translation is box by box — the
+    image keeps both swaps around the image of `CRz` — and it has to: `CRz` is NOT symmetric in its two
+    qubits, the conjugated gate is `diag(1, e⁻, 1, e⁺)`, the plain one `diag(1, 1, e⁻, e⁺)`; both have the
+    entry 1 at (0, 0), so they are not proportional either.  The circuit meets the hypotheses of
+    `circuit2zx_sound` (every well-typed list of layers does). -/
+def swapCRz : Circ := [(0, .swap, 0), (0, .rot .CRz 2, 0), (0, .swap, 0)]
+def plainCRz : Circ := [(0, .rot .CRz 2, 0)]
+example : Circ.codFrom 2 swapCRz = some 2 := by decide
+theorem swap_conjugation_kept : (circuit2zx true swapCRz).toOption =
+    (circuit2zx true plainCRz).toOption.map (fun d => (.swap, 0) :: d ++ [(.swap, 0)]) := by decide
+theorem crz_not_symmetric : evalCirc 2 swapCRz ≠ evalCirc 2 plainCRz ∧
+    (evalCirc 2 swapCRz).head?.bind List.head? = some 1 ∧
+    (evalCirc 2 plainCRz).head?.bind List.head? = some 1 := by decide
+
 end DV.C16
